@@ -477,7 +477,8 @@ func (cs *c04Case) c15Foreign(c *ctx, d *Driver, impl *[]string, variant string,
 	o := guard(func() { imv, err = base.reread(v) })
 	pool := "-"
 	if cs.Kind == "tbx" {
-		var ns []string
+		// "n" followed by "/<hex>" per name, so that the list [""] ("n/-") differs from the empty list ("n")
+		ns := []string{"n"}
 		for _, n := range cs.Names {
 			ns = append(ns, hexs([]byte(n)))
 		}
@@ -610,6 +611,23 @@ func checkC15(c *ctx) {
 		count(cs)
 		r.hist("corpus.csi-all-bins")
 	}
+	// corpus: tabix name lists with an EMPTY reference name (encoded as a lone terminator in the name block):
+	// alone, first, in the middle, last
+	for _, names := range [][]string{{""}, {"", "chr1"}, {"chrA", "", "chrB"}, {"chrA", ""}} {
+		cs := &c04Case{Kind: "tbx", Format: 2, ZeroBased: true, NameCol: 1, BegCol: 2, EndCol: 3, Meta: '#', Skip: 7,
+			Names: names, Sorted: true, Strategy: "adjacent"}
+		off := int64(1)
+		for i := range names {
+			for k := 0; k < 2; k++ {
+				cs.Recs = append(cs.Recs, c04Rec{Rid: i, Start: 1000 + 19000*k, End: 1100 + 19000*k, Placed: true, Mapped: true, CB: off, CE: off + 100})
+				off += 100
+			}
+			cs.Queries = append(cs.Queries, c04Query{i, 0, 30000}, c04Query{i, 20000, 20050})
+		}
+		cs.c15Run(c, d, &impl)
+		count(cs)
+		r.hist("corpus.tbx-empty-name")
+	}
 	for i := 0; i < 8; i++ {
 		for _, k := range kinds {
 			cs := g.c15Special(k, i)
@@ -723,6 +741,15 @@ func c15HeaderDiff(a, b c04Impl) string {
 			return "MetaChar"
 		case p.Skip != q.Skip:
 			return "Skip"
+		}
+		pn, qn := p.Names(), q.Names()
+		if len(pn) != len(qn) {
+			return fmt.Sprintf("number of names %d -> %d", len(pn), len(qn))
+		}
+		for i := range pn {
+			if pn[i] != qn[i] {
+				return fmt.Sprintf("name %d: %q -> %q", i, pn[i], qn[i])
+			}
 		}
 	case *csiImpl:
 		y, ok := b.(*csiImpl)
